@@ -23,6 +23,7 @@ from __future__ import annotations
 import asyncio
 import itertools
 import json
+import logging
 import os
 import select
 import sys
@@ -41,9 +42,12 @@ from prompt_toolkit.key_binding.key_processor import _Flush
 from prompt_toolkit.keys import Keys
 from prompt_toolkit.output import DummyOutput
 
+# a broken tree makes asyncio log thousands of tracebacks; the verdict does not need them
+logging.getLogger("asyncio").setLevel(logging.CRITICAL)
+
 ID = "C17"
 DRIVER = "drv_c17"
-PROPS = ["Ptk.Props.C17"]
+PROPS = ["Ptk.Props.C17", "Ptk.Props.C17Buf"]
 LEVEL_TEXT = ("Lean 4 theorems over an executable model of the accept boundary: KeyProcessor.process_keys with "
               "the is_done gate (CPR responses still consumed, c-j re-feeding Enter at the front), "
               "Application.run_async (type-ahead replay at start, read_from_input guard, store_typeahead on exit) "
@@ -61,13 +65,19 @@ TECHNIQUE = "Lean 4 proof over an executable model + differential correspondence
 RULE = ("step cases: every script over {a, Enter, CPR, c-j} up to the tier's length x every chunking into writes x "
         "4 schedule patterns (pre-fed / interleaved / late finish with reads while done / stale reader callback "
         "between prompts), then seeded random scripts (editing keys, c-c, multi-byte text, CPRs) with random event "
-        "schedules incl. partial reads; e2e cases: seeded scripts of 1-5 lines in modes pre / thread (key-boundary "
-        "chunks) / threadbytes (arbitrary byte cuts) / async (writer task), CPRs injected at key boundaries. "
-        "non-trivial = at least two prompts, or a key after an accepting key, or a CPR")
+        "schedules incl. partial reads; the same for the key-buffer layer (c-x prefix, c-x c-x, escape Enter, "
+        "escape + unbound key, c-space c-c = pending abort, flush-timer events); e2e cases: seeded scripts of 1-5 "
+        "lines in modes pre / thread (key-boundary chunks) / threadbytes (arbitrary byte cuts) / async (writer "
+        "task), CPRs injected at key boundaries. non-trivial = at least two prompts, or a key after an accepting "
+        "key, or a CPR")
 EXHAUSTIVE = True
 EXHAUSTIVE_SCOPE = {
-    "quick": "step: scripts over {a,Enter,CPR,c-j} len<=3 with >=1 accepting key, all chunkings, 4 schedule patterns",
-    "thorough": "step: scripts over {a,Enter,CPR,c-j,b} len<=4 with >=1 accepting key, all chunkings, 4 schedule patterns"}
+    "quick": "step: scripts over {a,Enter,CPR,c-j} len<=3 with >=1 accepting key, all chunkings into writes, 4 "
+             "schedule patterns; key-buffer layer: scripts over {a,Enter,c-x,c-space c-c,c-c} len<=3, 2-4 chunkings, "
+             "schedule patterns with and without the flush timer",
+    "thorough": "step: scripts over {a,Enter,CPR,c-j,b} len<=3 all chunkings (len 4: 3 chunkings), 4 schedule "
+                "patterns; key-buffer layer: scripts over {a,Enter,c-x,c-space c-c,c-c,esc-Enter,CPR,esc-q} len<=3 "
+                "all chunkings (len 4 over the first five: 2 chunkings), patterns with and without the flush timer"}
 TRUSTED = ["harness/c17.py: token table (bytes <-> key code), the stepper that calls the registered reader callback, "
            "the comparison of states/results",
            "Ptk/Model/C17.lean is a hand translation of process_keys / run_async / typeahead.py / the default "
@@ -137,8 +147,13 @@ def tok_codes(t: str):
     return [tok_code(t)]
 
 
-def is_text_tok(t: str) -> bool:
-    return len(t) == 1
+def typed_text(t: str):
+    """characters a token may legitimately put into the line"""
+    if len(t) == 1:
+        return [t]
+    if t.startswith("EX:"):
+        return [t[3:]]
+    return []
 
 
 def kp_code(kp) -> int:
@@ -221,6 +236,10 @@ async def _step_async(case) -> _Run:
             return data
 
         inp.stdin_reader.read = limited_read
+        layer_b = case.get("layer") == "B"
+        if layer_b:
+            # the `timeoutlen` timer fires only inside a T event (which sleeps); nothing else sleeps
+            app.timeoutlen = 0.001
         task = None
         last_cb = None
         typed_chars = set()
@@ -241,8 +260,12 @@ async def _step_async(case) -> _Run:
                 buf = "- -"
             q = [kp_code(x) for x in app.key_processor.input_queue]
             ta = [kp_code(x) for x in _typeahead_peek(inp)]
-            run.lines.append(f"run={int(running)} done={done_kind()} buf={buf} q={enc_keys(q)} "
+            kb = f"kb={enc_keys(kp_code(x) for x in app.key_processor.key_buffer)} " if layer_b else ""
+            run.lines.append(f"run={int(running)} done={done_kind()} buf={buf} {kb}q={enc_keys(q)} "
                              f"ta={enc_keys(ta)} res={enc_res(run.results)}")
+            if app.is_done and app.key_processor.key_buffer:
+                run.notes.append(("key buffer | keys left in the key buffer of a finished application",
+                                  str([kp_code(x) for x in app.key_processor.key_buffer])))
             # --- property observations on the real objects
             nonlocal frozen
             if running:
@@ -286,8 +309,7 @@ async def _step_async(case) -> _Run:
                 for t in ev[1]:
                     bs = tok_bytes(t)
                     pipe_toks.append([t, len(bs)])
-                    if not t.startswith("CPR:") and t not in SPECIAL:
-                        typed_chars.add(t)
+                    typed_chars.update(typed_text(t))
                 inp.send_bytes(b"".join(tok_bytes(t) for t in ev[1]))
             elif op == "S":
                 if task is None and len(run.results) < k:
@@ -308,10 +330,17 @@ async def _step_async(case) -> _Run:
             elif op == "F":
                 if task is not None and app.is_done:
                     await collect()
+            elif op == "T":
+                # let the key processor's flush timer (timeoutlen = 1 ms here) fire; when the
+                # flushed key ends the application, the application finishes
+                if task is not None and not app.is_done:
+                    await asyncio.sleep(0.03)
+                    if app.is_done or not app._is_running:
+                        await collect()
             observe()
         if task is not None:
             # prompt still waiting for input: end it (not part of the comparison)
-            if not app.is_done:
+            if app.future is not None and not app.is_done:
                 app.exit(exception=EOFError())
             try:
                 await asyncio.wait_for(task, WATCHDOG_S)
@@ -483,26 +512,27 @@ def _new_loop_run(coro):
 
 # ------------------------------------------------------------------ protocol
 def model_lines(case):
+    pre = "B" if case.get("layer") == "B" else ""
     if case["kind"] == "step":
-        out = [f"init {case['k']}"]
+        out = [f"{pre}init {case['k']}"]
         for ev in case["events"]:
             if ev[0] == "W":
-                out.append("W " + enc_keys(tok_code(t) for t in ev[1]))
+                out.append(f"{pre}W " + enc_keys(c for t in ev[1] for c in tok_codes(t)))
             elif ev[0] == "R":
-                out.append(f"R {ev[1]}")
+                out.append(f"{pre}R {ev[1]}")
             else:
-                out.append(ev[0])
+                out.append(pre + ev[0])
         # after the schedule: what is left unconsumed
-        out.append("E2E " + str(case["k"]) + " " + _sched_tokens(case["events"]))
+        out.append(f"{pre}E2E " + str(case["k"]) + " " + _sched_tokens(case["events"]))
         return out
-    return ["E2E " + str(case["k"]) + " " + _sched_tokens(case["msched"])]
+    return [f"{pre}E2E " + str(case["k"]) + " " + _sched_tokens(case["msched"])]
 
 
 def _sched_tokens(events):
     out = []
     for ev in events:
         if ev[0] == "W":
-            out.append("w " + enc_keys(tok_code(t) for t in ev[1]))
+            out.append("w " + enc_keys(c for t in ev[1] for c in tok_codes(t)))
         elif ev[0] == "R":
             out.append(f"r {ev[1]}")
         else:
@@ -531,12 +561,23 @@ def expected(tokens, k):
     results, text, cur = [], [], 0
     i = 0
     n = len(tokens)
+    pending_cx = False
     while i < n and len(results) < k:
         t = tokens[i]
         i += 1
         if t.startswith("CPR:"):
             continue
-        if t in ("ENTER", "CJ"):
+        if t == "CX":
+            if pending_cx:                 # c-x c-x: jump between line start and line end
+                cur = 0 if cur == len(text) else len(text)
+            pending_cx = not pending_cx
+            continue
+        pending_cx = False                 # c-x followed by a key without binding is dropped
+        if t == "CSPACE":
+            continue                       # (the generator puts c-c right behind it)
+        if t.startswith("EX:"):            # escape is ignored, the character is typed
+            t = t[3:]
+        if t in ("ENTER", "CJ", "EENTER"):
             results.append((-1, "".join(text)))
             text, cur = [], 0
         elif t == "CC":
@@ -565,7 +606,7 @@ def expected(tokens, k):
         else:
             text.insert(cur, t)
             cur += 1
-    left = [tok_code(t) for t in tokens[i:] if not t.startswith("CPR:")]
+    left = [c for t in tokens[i:] if not t.startswith("CPR:") for c in tok_codes(t)]
     return results, left
 
 
@@ -588,7 +629,7 @@ def oracle(case):
 
     nres = len(run.results)
     exp_res, exp_left = expected(toks, nres if case["kind"] == "step" else case["k"])
-    typed = {t for t in toks if not t.startswith("CPR:") and t not in SPECIAL}
+    typed = {c for t in toks for c in typed_text(t)}
     for i, (kind, text) in enumerate(run.results):
         if kind == -9:
             bad("prompt() | did not return (accepting key lost)" if text == "TIMEOUT"
@@ -610,6 +651,10 @@ def oracle(case):
                 cls = "keys duplicated or taken from another line"
             else:
                 cls = "keys misapplied"
+            if cpr_inside_sequence(toks):
+                bad("key sequence | a CPR response between the keys of a key sequence breaks the sequence",
+                    f"prompt #{i + 1}: got {text!r}, typed {et!r}")
+                continue
             bad(f"prompt() | line differs from the typed line: {cls}",
                 f"prompt #{i + 1}: got {text!r}, typed {et!r}")
     if case["kind"] == "e2e" and nres == case["k"] and all(kd != -9 for kd, _ in run.results) \
@@ -626,6 +671,18 @@ def oracle(case):
         for sig, msg in run.notes:
             bad(sig, msg)
     return v
+
+
+def cpr_inside_sequence(toks):
+    """a CPR report directly behind a key that waits for a second key (c-x, c-c with a selection)"""
+    for j, t in enumerate(toks):
+        if t.startswith("CPR:") and j > 0:
+            p = j - 1
+            while p >= 0 and toks[p].startswith("CPR:"):
+                p -= 1
+            if p >= 0 and toks[p] in ("CX",):
+                return True
+    return False
 
 
 def _subseq(a, b):
@@ -689,6 +746,132 @@ def pattern_events(toks, sizes, pat):
 
 def mk_step(toks_events, k):
     return {"kind": "step", "k": k, "events": toks_events + completion(k), "complete": True}
+
+
+# ---- second layer: key sequences of several key presses (key buffer), flush timer
+def completion_b(k):
+    ev = []
+    for _ in range(k + 1):
+        ev += [["S"], ["R", 100000], ["T"], ["F"]]
+    return ev
+
+
+def mk_step_b(events, k):
+    return {"kind": "step", "layer": "B", "k": k, "events": events + completion_b(k), "complete": True}
+
+
+def flatten_units(units):
+    return [t for u in units for t in u]
+
+
+def pattern_events_b(units, sizes, pat):
+    """units = lists of tokens that the chunking may separate"""
+    chunks, a = [], 0
+    for sz in sizes:
+        chunks.append(flatten_units(units[a:a + sz]))
+        a += sz
+    ev = []
+    if pat == "pre":
+        ev += [["W", c] for c in chunks]
+    elif pat == "inter":
+        ev.append(["S"])
+        for c in chunks:
+            ev += [["W", c], ["R", 100000], ["F"], ["S"]]
+    elif pat == "interT":
+        ev.append(["S"])
+        for c in chunks:
+            ev += [["W", c], ["R", 100000], ["T"], ["F"], ["S"]]
+    elif pat == "late":
+        ev.append(["S"])
+        for c in chunks:
+            ev += [["W", c], ["R", 100000]]
+    return ev
+
+
+B_CHARS = "abxzq "
+
+
+def rand_units_b(rng, nlines, cpr_p):
+    """script as units; the accepting unit of a line is Enter, escape-Enter or c-space c-c"""
+    units = []
+    for _ in range(nlines):
+        for _ in range(rng.choice([0, 1, 2, 3, 5])):
+            r = rng.random()
+            if r < 0.5:
+                units.append([rng.choice(B_CHARS)])
+            elif r < 0.62:
+                units.append(["CX"])
+            elif r < 0.66:
+                units.append(["CX", "CX"])
+            elif r < 0.7:
+                units += [["CX"], [f"CPR:{rng.randrange(1, 60)};{rng.randrange(1, 200)}"], ["CX"]]
+            elif r < 0.8:
+                units.append(["EX:" + rng.choice("qzx")])
+            else:
+                units.append([rng.choice(["BS", "LEFT", "RIGHT", "CA", "CE", "HOME", "END", "CB", "CF"])])
+        r = rng.random()
+        if r < 0.5:
+            units.append(["ENTER"])
+        elif r < 0.7:
+            units.append(["EENTER"])
+        elif r < 0.85:
+            units.append(["CC"])
+        else:
+            units += [["CSPACE"], ["CC"]]
+    out = []
+    for u in units:
+        while rng.random() < cpr_p:
+            out.append([f"CPR:{rng.randrange(1, 60)};{rng.randrange(1, 200)}"])
+        out.append(u)
+    return out
+
+
+def rand_events_b(rng, units):
+    """writes at unit boundaries, full reads, the flush timer only right after a read"""
+    ev, i = [], 0
+    last_read = False
+    while i < len(units):
+        r = rng.random()
+        if r < 0.35:
+            n = rng.choice([1, 1, 2, 3, len(units)])
+            ev.append(["W", flatten_units(units[i:i + n])])
+            i += n
+            last_read = False
+        elif r < 0.6:
+            ev.append(["R", 100000])
+            last_read = True
+        elif r < 0.7:
+            if last_read:
+                ev.append(["T"])
+                last_read = False
+        elif r < 0.85:
+            ev.append(["S"])
+            last_read = False
+        else:
+            ev.append(["F"])
+            last_read = False
+    return ev
+
+
+def mk_e2e_b(rng, mode, units):
+    toks = flatten_units(units)
+    k = fins(toks)
+    case = {"kind": "e2e", "layer": "B", "mode": mode, "k": k, "script": toks}
+    if mode == "pre":
+        case["cuts"] = []
+    else:
+        # never cut right behind a key that waits for a second key (no timer may decide the result)
+        ok = [j for j in range(1, len(toks))
+              if toks[j - 1] not in ("CX", "CSPACE") and not (toks[j - 1] == "CC" and j >= 2 and toks[j - 2] == "CSPACE")]
+        ncut = rng.choice([0, 1, 2, 3, len(toks)])
+        case["cuts"] = sorted(set(rng.sample(ok, min(ncut, len(ok))))) if ok else []
+        case["delays"] = [rng.choice([0, 0, 0, 1, 1, 2, 3]) for _ in range(rng.randrange(1, 5))]
+        case["pdelay"] = rng.choice([0, 0, 1])
+    sched = [["W", toks]]
+    for _ in range(k + 1):
+        sched += [["S"], ["R", 100000], ["T"], ["F"]]
+    case["msched"] = sched
+    return case
 
 
 def rand_script(rng, nlines, rich=True, tail=None):
@@ -789,13 +972,17 @@ def cases(tier, rng):
             k = fins(toks)
             if k == 0:
                 continue
-            for sizes in compositions(n):
+            comps = list(compositions(n))
+            if n == 4:
+                # all-in-one, all singletons and one seeded chunking in between
+                comps = [comps[0], comps[-1], comps[rng.randrange(1, len(comps) - 1)]]
+            for sizes in comps:
                 for pat in ("pre", "inter", "late", "stale"):
                     if pat == "pre" and len(sizes) > 1:
                         continue
                     yield mk_step(pattern_events(toks, sizes, pat), k)
     # ---- random step cases
-    nstep = 160 if quick else 6000
+    nstep = 160 if quick else 3000
     for _ in range(nstep):
         nl = rng.choice([1, 2, 2, 3, 4])
         toks = inject_cpr(rng, rand_script(rng, nl, rich=True), p=rng.choice([0, 0.1, 0.3]))
@@ -804,7 +991,7 @@ def cases(tier, rng):
             k = max(1, k - 1)              # fewer prompts than lines: the rest must stay unconsumed
         yield mk_step(rand_events(rng, toks, k), k)
     # ---- end to end
-    ne2e = 200 if quick else 7000
+    ne2e = 200 if quick else 3000
     modes = ["pre", "thread", "threadbytes", "async"]
     for i in range(ne2e):
         mode = modes[i % 4]
@@ -812,6 +999,42 @@ def cases(tier, rng):
         toks = inject_cpr(rng, rand_script(rng, nl, rich=True), p=rng.choice([0, 0.1, 0.25]))
         k = fins(toks)
         yield mk_e2e(rng, mode, toks, k)
+    # ---- second layer (key buffer): exhaustive small scope
+    b_small = [["a"], ["ENTER"], ["CX"], ["CSPACE"], ["CC"]]
+    b_alpha = b_small + ([] if quick else [["EENTER"], ["CPR:3;7"], ["EX:q"]])
+    b_max = 3 if quick else 4
+    for n in range(1, b_max + 1):
+        for tup in itertools.product(b_small if n == 4 else b_alpha, repeat=n):
+            units = list(tup)
+            toks = flatten_units(units)
+            k = fins(toks)
+            if k == 0:
+                continue
+            # c-space is only generated directly in front of c-c (a selection changes every binding)
+            if any(t == "CSPACE" and (j + 1 >= len(toks) or toks[j + 1] != "CC") for j, t in enumerate(toks)):
+                continue
+            comps = list(compositions(n))
+            if (quick and n == 3) or n == 4:
+                comps = [comps[0], comps[-1]]
+            for sizes in comps:
+                for pat in ("pre", "inter", "interT", "late"):
+                    if pat == "pre" and len(sizes) > 1:
+                        continue
+                    if ((quick and n == 3) or n == 4) and pat in ("inter", "late"):
+                        continue
+                    yield mk_step_b(pattern_events_b(units, sizes, pat), k)
+    # ---- second layer: random step cases and end to end
+    nb = 80 if quick else 1500
+    for _ in range(nb):
+        units = rand_units_b(rng, rng.choice([1, 2, 2, 3]), rng.choice([0, 0.1, 0.3]))
+        toks = flatten_units(units)
+        yield mk_step_b(rand_events_b(rng, units), fins(toks))
+    nbe = 60 if quick else 1200
+    for i in range(nbe):
+        units = rand_units_b(rng, rng.choice([1, 2, 3, 4]), rng.choice([0, 0.1, 0.25]))
+        if units[-1] == ["CC"] and len(units) >= 2 and units[-2] == ["CSPACE"]:
+            units.append(["a"])            # the pending c-c needs a next key (or 0.5 s) to fire
+        yield mk_e2e_b(rng, ["pre", "thread", "async"][i % 3], units)
     # ---- long lines: more than one 1024-byte read per line
     nbig = 3 if quick else 60
     for i in range(nbig):
@@ -838,6 +1061,8 @@ def distribution(cases_):
     d = {"kind": {}, "prompts": {}, "tokens": {}, "cpr_cases": 0, "typeahead_cases": 0}
     for c in cases_:
         key = c["kind"] if c["kind"] == "step" else "e2e:" + c["mode"]
+        if c.get("layer") == "B":
+            key += ":keybuffer"
         d["kind"][key] = d["kind"].get(key, 0) + 1
         d["prompts"][str(c["k"])] = d["prompts"].get(str(c["k"]), 0) + 1
         toks = case_tokens(c)
